@@ -1,3 +1,4 @@
 import CohdlVerif.Model.DriverLoop
--- model driver of property C20 (stub: no model entry points yet)
-def main : IO Unit := CohdlVerif.driverLoop (fun _ => "bad-op")
+import CohdlVerif.Model.C20
+-- model driver of property C20:  `sim ...` | `decode ...` | `flat ...`  (see Model/C20.lean, "line protocol")
+def main : IO Unit := CohdlVerif.driverLoop CohdlVerif.C20.handle
